@@ -158,6 +158,31 @@ func checkC05(c C05Case, st *evid.Stats) error {
 					if !got.Called || got.As != target {
 						return failf("after %s: Called(%q)=%v CalledAs=%q, want true/%q (level %s, names %v)", q(argvP), target, got.Called, got.As, target, lv.Path, keys)
 					}
+					// priming: the same spelling used at the root before the command tokens must not influence
+					// how it is resolved at this level (each level has its own table)
+					if len(c.Path) > 0 {
+						root := c.Spec.Levels()
+						if rk, _ := resolve(root, p); rk != "" && !(root.Visible[rk].Spec.Kind.IsMulti() && root.Visible[rk].Spec.Max > root.Visible[rk].Spec.Min) {
+							ro := root.Visible[rk].Spec
+							prime := mk(p, ro)[len(c.Path):]
+							argvQ := append(append(append([]string{}, prime...), c.Path...), argvP[len(c.Path):]...)
+							Q := Run(c.Spec, argvQ, RunOpts{})
+							st.Class("primed-at-root")
+							if Q.Panic != "" {
+								return failf("panic: %s", Q.Panic)
+							}
+							if Q.ParseFailed {
+								return failf("%q resolves at the root (to %q) and at level %s (to %q), yet Parse(%s) failed: %s", p, rk, lv.Path, target, q(argvQ), Q.ParseErr)
+							}
+							gq := Q.Opts[OKey(lv.Path, target)]
+							if !gq.Called || gq.As != target {
+								return failf("after %s: at level %s Called(%q)=%v CalledAs=%q, want true/%q - the spelling %q was resolved differently after it had been used at the root", q(argvQ), lv.Path, target, gq.Called, gq.As, target, p)
+							}
+							if !o.Kind.IsMulti() && !o.Kind.IsFlag() && gq.Val != got.Val {
+								return failf("after %s: option %q at level %s reads %s, want %s", q(argvQ), target, lv.Path, gq.Val, got.Val)
+							}
+						}
+					}
 					if !isKey {
 						st.Class("unique-prefix")
 						if nested && len(p) < len(target) {
@@ -216,6 +241,18 @@ func checkC05(c C05Case, st *evid.Stats) error {
 					}
 					if d := optsDiff(base.Opts, B.Opts); d != "" {
 						return failf("ambiguous prefix %q changed option state: %s", p, d)
+					}
+					if len(c.Path) > 0 {
+						root := c.Spec.Levels()
+						if rk, _ := resolve(root, p); rk != "" && !(root.Visible[rk].Spec.Kind.IsMulti() && root.Visible[rk].Spec.Max > root.Visible[rk].Spec.Min) {
+							prime := mk(p, root.Visible[rk].Spec)[len(c.Path):]
+							argvQ := append(append(append([]string{}, prime...), c.Path...), argvP[len(c.Path):]...)
+							Q := Run(c.Spec, argvQ, RunOpts{})
+							st.Class("primed-at-root")
+							if !Q.ParseFailed {
+								return failf("prefix %q is ambiguous at level %s (%v); after having been used at the root (where it means %q) it was accepted silently: Parse(%s) succeeded", p, lv.Path, M, rk, q(argvQ))
+							}
+						}
 					}
 				}
 			}
